@@ -3,6 +3,9 @@ _p = os.path.join(os.path.dirname(os.path.abspath(__file__)), "..", "trees", "tr
 _s = importlib.util.spec_from_file_location("treeunits", _p); tu = importlib.util.module_from_spec(_s); _s.loader.exec_module(tu)
 LEVEL = "model_checking"
 UNITS = list(tu.UNITS)
+# the initial state of the map: a new tree is empty and counts 0 (unit shared with C18, where its allocation-failure exit matters)
+UNITS.append(dict(id="tree_new", harness="../C18/misc2.c", entry="h_tree_new", sources=["ptree.c", "ptree-bst.c", "ptree-rb.c", "ptree-avl.c"], enforce=None, replace=[], defines=["UNIT_TREE_NEW"], canaries=2, timeout=300,
+                  functions=["p_tree_new_full", "p_tree_free"], cbmc_flags=["--unwind", "4", "--unwinding-assertions", "--object-bits", "10"]))
 REQUIRE_CONFIGURED = ["ptree.c", "ptree-bst.c", "ptree-rb.c", "ptree-avl.c"]
 TECHNIQUE = "BOUNDED stand-in (not an unbounded proof): CBMC on the real ptree*.c from every well-formed tree up to a height bound (BST/ptree.c: 3 quick, 4 thorough; RB/AVL: 2 quick, 3 thorough), one symbolic operation, full re-validation; unwinding assertions on"
 LEVEL_TEXT = ("C12 focus: sorted-map view (membership/value of a ghost probe key, count, ascending traversal, early stop leaves the tree unchanged, clear). Heap-shape induction is not expressible in CBMC contracts (no inductive heap predicates), so the per-operation step is checked from EVERY well-formed tree "
